@@ -1579,9 +1579,12 @@ package p9p
 //
 // dirsEnc(s): the encodings of the entries of s, concatenated (defined by recursion on the list; unfolded where both
 // the list and its tail are named).
-//@ pure dirsEnc(s []Dir) Bytes reads E:p9p.Dir
-//@ axiom [dirlist] dirs_empty: forall s []Dir :: {dirsEnc(s)} len(s) == 0 ==> dirsEnc(s) == bempty
-//@ axiom [dirlist] dirs_step: forall s []Dir, t []Dir :: {dirsEnc(s), dirsEnc(t)} len(s) > 0 && base(t) == base(s) && off(t) == off(s) + 1 && len(t) == len(s) - 1 && cap(t) == cap(s) - 1 ==> dirsEnc(s) == bcat(encDir(at(s, 0)), dirsEnc(t))
+// dirsArr(a, o, n): the encodings of the n entries of the backing array a from index o on (a function of the array
+// value, so that it does not depend on the rest of the heap)
+//@ pure dirsArr(a Arr_Dir, o int, n int) Bytes
+//@ axiom [dirlist] dirs_empty: forall a Arr_Dir, o int, n int :: {dirsArr(a, o, n)} n <= 0 ==> dirsArr(a, o, n) == bempty
+//@ axiom [dirlist] dirs_step: forall a Arr_Dir, o int, n int, o2 int, n2 int :: {dirsArr(a, o, n), dirsArr(a, o2, n2)} n > 0 && o2 == o + 1 && n2 == n - 1 ==> dirsArr(a, o, n) == bcat(encDir(arrat(a, o)), dirsArr(a, o2, n2))
+//@ pure dirsEnc(s []Dir) Bytes reads E:p9p.Dir = dirsArr(rawarr("Dir", base(s)), off(s), len(s))
 
 // NewFixedReaddir's closure is an iterator in the sense of Readdir.nextfn.call with src := dirsEnc(dirs):
 // it delivers the head entry and keeps the tail, or reports io.EOF exactly when nothing is left; it never fails otherwise.
@@ -1592,3 +1595,52 @@ package p9p
 //@ ensures eof: err != nil <==> len(dirs) == 0
 //@ ensures eof_is_EOF: err != nil ==> err == io.EOF && final_dirs == dirs
 //@ ensures frame: unchanged("E:p9p.Dir")
+
+// dirsEnc does not depend on the capacity of the slice, and slices with equal elements encode equally (induction from
+// the end of the list, lemma function lemmaDirsExt).
+
+//@ func lemmaDirsExt
+//@ property C17
+//@ use dirlist nobytes
+//@ axiomatize [dirext] dirs_ext {dirsArr(a1, o1, n), dirsArr(a2, o2, n)}
+//@ instance forall a1 Arr_Dir, o1 int, a2 Arr_Dir, o2 int, n int
+//@ instance s := mkslice("[]Dir", 1, o1, n, n)
+//@ instance t := mkslice("[]Dir", 2, o2, n, n)
+//@ instance heap E:p9p.Dir := 1 a1, 2 a2
+//@ modifies nothing
+//@ requires len(s) == len(t) && (forall k int :: {at(t, k)} 0 <= k && k < len(s) ==> at(s, k) == at(t, k))
+//@ ensures dirsEnc(s) == dirsEnc(t)
+//@ loop 1 invariant 0 <= i && i <= len(s)
+//@ loop 1 invariant unfold_s: i < len(s) ==> dirsEnc(tail(s, i)) == bcat(encDir(at(s, i)), dirsEnc(tail(s, i + 1)))
+//@ loop 1 invariant unfold_t: i < len(s) ==> dirsEnc(tail(t, i)) == bcat(encDir(at(t, i)), dirsEnc(tail(t, i + 1)))
+//@ loop 1 invariant dirsEnc(tail(s, i)) == dirsEnc(tail(t, i))
+
+// The batch iterator handed to NewReaddir is an environment. Ghost bsrc(fn): the encodings of the entries it has still to
+// deliver. A call delivers a batch (a prefix of what is left), or signals the end by an empty batch or by io.EOF, or fails.
+//@ ghost bsrc Bytes
+//@ iface ReadNext.call
+//@ params ctx
+//@ modifies bsrc, alloc, E:p9p.Dir
+//@ ensures fresh_batch: preserved("E:p9p.Dir")
+//@ ensures batch: err == nil ==> old(bsrc(self)) == bcat(dirsEnc(result0), bsrc(self)) && (forall j int :: {rawat("Dir", base(result0), j)} off(result0) <= j && j < off(result0) + len(result0) ==> repDir(rawat("Dir", base(result0), j)))
+//@ ensures end_by_empty_batch: err == nil && len(result0) == 0 ==> old(bsrc(self)) == bempty
+//@ ensures end_by_eof: err == io.EOF ==> old(bsrc(self)) == bempty && bsrc(self) == bempty
+//@ ensures end_signalled: old(bsrc(self)) == bempty ==> err == io.EOF || (err == nil && len(result0) == 0)
+//@ ensures others: forall k int :: {gk(bsrc, k)} k != key(self) ==> gk(bsrc, k) == old(gk(bsrc, k))
+
+// mkNext1's adapter is an iterator in the sense of Readdir.nextfn.call with
+//   src := done ? nothing : the rest of the current batch followed by what the batch iterator has left.
+//@ macro SRC0 = (done ? bempty : bcat(old(dirsEnc(dirs)), old(bsrc(next))))
+//@ macro SRC1 = (final_done ? bempty : bcat(dirsEnc(final_dirs), bsrc(next)))
+//@ func mkNext1$1
+//@ property C17
+//@ timeout 60
+//@ use bytes dirlist dirext assoc_r noassoc
+//@ requires next != nil
+//@ requires !done ==> (forall j int :: {rawat("Dir", base(dirs), j)} off(dirs) <= j && j < off(dirs) + len(dirs) ==> repDir(rawat("Dir", base(dirs), j)))
+//@ ensures next: err == nil ==> SRC0 == bcat(encDir(result0), SRC1) && repDir(result0)
+//@ ensures eof: err == io.EOF ==> SRC0 == bempty && SRC1 == bempty
+//@ ensures eof_exactly: SRC0 == bempty ==> err == io.EOF
+//@ ensures kept_wellformed: !final_done ==> (forall j int :: {rawat("Dir", base(final_dirs), j)} off(final_dirs) <= j && j < off(final_dirs) + len(final_dirs) ==> repDir(rawat("Dir", base(final_dirs), j)))
+//@ at "d := dirs[0]" assert hint_batch: blen(dirsEnc(dirs)) >= 0
+//@ at "return d, nil" assert hint_rest: blen(dirsEnc(dirs)) >= 0
